@@ -232,26 +232,8 @@ func (m *mon) after(ev *world.Event) {
 // this operation (with caching on the leak is a reference that is never dropped,
 // visible only at the final accounting).
 func (m *mon) noteMismatchSK(ev *world.Event) {
-	w := m.w
-	calls := w.Log.Calls[ev.CallFrom:ev.CallTo]
-	for i, c := range calls {
-		if c.Target != "store" || c.Op != "Store" || c.OK || !strings.HasPrefix(c.ID, "_IK_") {
-			continue
-		}
-		for _, d := range calls[i+1:] {
-			if d.Target == "store" && d.Op == "LoadLatest" && d.ID == c.ID && d.OK {
-				row := w.Store.Get(d.ID, d.Found)
-				if row == nil || row.Rec.ParentKeyMeta == nil {
-					continue
-				}
-				parent := w.Store.Get(row.Rec.ParentKeyMeta.ID, row.Rec.ParentKeyMeta.Created)
-				if parent != nil {
-					if pt, err := kit.KMSUnwrap(w.KMS.Master, parent.Rec.EncryptedKey); err == nil {
-						m.mismatch[kit.Fp(pt)] = true
-					}
-				}
-			}
-		}
+	for _, fp := range m.w.MismatchParents(ev) {
+		m.mismatch[fp] = true
 	}
 }
 
